@@ -1,6 +1,410 @@
 #!/usr/bin/env python3
-"""Must-fail corpus (DESIGN.md C09/C10/C14/C17): filled in below."""
+"""Must-fail corpus: declarations the stated rules classify as invalid (C09, C10), programs that
+use an API which must not exist (C14, C17), and regime fixtures (C18).  Every witness owns a line
+range in its crate; the judge requires at least one rustc error attributed to that range.
+Each must-fail declaration has a just-valid twin in the positive crate `pos_twin_0`."""
+from corpus import (Crate, T_bool, T_enum, T_int, T_uint, enum, field, is_native, mk_enum, render_enum, render_struct,
+                    storage_of, struct)
+
+
+def raw_item(mod, name, lines, prop, clause, expect_code=None, extra=None):
+    d = {"kind": "neg", "mod": mod, "name": name, "path": "%s::%s" % (mod, name), "lines": lines, "prop": prop, "clause": clause,
+         "expect_code": expect_code}
+    if extra:
+        d.update(extra)
+    return d
+
+
+def neg_struct(mod, name, base, fields, prop, clause, default=None):
+    s = struct(mod, name, base, fields, default=default, family="NEG")
+    lines = render_struct(s)
+    from corpus import imports_of
+    return raw_item(mod, name, lines, prop, clause, extra={"text": "\n".join(lines), "base": base, "imports": sorted(imports_of(s)),
+                                                           "shape": [[f["ranges"], f["ty"], f["array"]] for f in fields]})
+
+
+BASES = [8, 16, 32, 64, 128, 7, 12, 24, 48, 100]
+
+
+def decl_pairs(tier):
+    """list of (clause, invalid struct args, valid twin struct args); args = (base, fields)"""
+    out = []
+    n = [0]
+
+    def add(clause, base, bad_fields, good_fields):
+        n[0] += 1
+        out.append((clause, n[0], base, bad_fields, good_fields))
+
+    for base in BASES:
+        S = storage_of(base)
+        top = base - 1
+        # ---- type width vs selected bits
+        for w in sorted({1, 2, 3, 7, 8, 9, 15, 16, 17, min(base, 31), min(base, 33)}):
+            if w + 1 > base or w < 1:
+                continue
+            # unsigned type one bit too wide / too narrow
+            add("width: u%d on %d bits" % (w + 1, w), base, [field("x", [(0, w - 1)], T_uint(w + 1))], [field("x", [(0, w - 1)], T_uint(w))])
+            if w >= 2:
+                add("width: u%d on %d bits" % (w - 1, w), base, [field("x", [(0, w - 1)], T_uint(w - 1))], [field("x", [(0, w - 1)], T_uint(w))])
+            if is_native(w):
+                add("width: i%d on %d bits" % (w, w + 1), base, [field("x", [(0, w)], T_int(w))], [field("x", [(0, w - 1)], T_int(w))])
+                if w >= 2:
+                    add("width: i%d on %d bits" % (w, w - 1), base, [field("x", [(0, w - 2)], T_int(w))], [field("x", [(0, w - 1)], T_int(w))])
+        if base >= 3:
+            add("width: bool on 2 bits", base, [field("x", [(1, 2)], T_bool())], [field("x", [(1, 1)], T_bool())])
+            add("width: bool on a list of two bits", base, [field("x", [(0, 0), (2, 2)], T_bool())], [field("x", [(2, 2)], T_bool(), force_list=True, syn=1)])
+            add("width: list total 3 bits typed u2", base, [field("x", [(0, 0), (1, 2)], T_uint(2))], [field("x", [(0, 0), (1, 2)], T_uint(3))])
+            add("width: list total 2 bits typed u3", base, [field("x", [(2, 2), (0, 0)], T_uint(3))], [field("x", [(2, 2), (0, 0)], T_uint(2))])
+        # ---- lo <= hi
+        if base >= 4:
+            add("range: hi < lo", base, [field("x", [(3, 1)], T_uint(3))], [field("x", [(1, 3)], T_uint(3))])
+            add("range: hi < lo in a list", base, [field("x", [(0, 0), (3, 2)], T_uint(3))], [field("x", [(0, 0), (2, 3)], T_uint(3))])
+        # ---- arrays: count and stride
+        if base >= 4:
+            add("array: one element", base, [field("x", [(0, 1)], T_uint(2), array={"k": 1, "stride": None})], [field("x", [(0, 1)], T_uint(2), array={"k": 2, "stride": None})])
+            add("array: zero elements", base, [field("x", [(0, 1)], T_uint(2), array={"k": 0, "stride": None})], [field("x", [(0, 1)], T_uint(2), array={"k": 2, "stride": None})])
+            add("array: stride smaller than element", base, [field("x", [(0, 1)], T_uint(2), array={"k": 2, "stride": 1})], [field("x", [(0, 1)], T_uint(2), array={"k": 2, "stride": 2})])
+            add("array: non-contiguous without stride", base, [field("x", [(0, 0), (2, 2)], T_uint(2), array={"k": 2, "stride": None})],
+                [field("x", [(0, 0), (2, 2)], T_uint(2), array={"k": 2, "stride": 1})])
+        if base >= 8:
+            add("array: bool stride 0", base, [field("x", [(0, 0)], T_bool(), array={"k": 2, "stride": 0})], [field("x", [(0, 0)], T_bool(), array={"k": 2, "stride": 1})])
+        # ---- bounds against the declared base width
+        add("bounds: single bit at base width", base, [field("x", [(base, base)], T_bool())], [field("x", [(top, top)], T_bool())])
+        add("bounds: u1 bit at base width", base, [field("x", [(base, base)], T_uint(1))], [field("x", [(top, top)], T_uint(1))])
+        if base >= 3:
+            add("bounds: range ends one past the top", base, [field("x", [(base - 2, base)], T_uint(3))], [field("x", [(base - 3, top)], T_uint(3))])
+            add("bounds: list reaches one past the top", base, [field("x", [(0, 0), (base, base)], T_uint(2))], [field("x", [(0, 0), (top, top)], T_uint(2))])
+        if S != base:
+            # inside the storage integer but outside the declared base
+            add("bounds: field in the storage padding", base, [field("x", [(base, S - 1)], T_uint(S - base))], [field("x", [(0, S - base - 1)], T_uint(S - base))])
+            add("bounds: top storage bit", base, [field("x", [(S - 1, S - 1)], T_bool())], [field("x", [(top, top)], T_bool())])
+            if base >= 8:
+                add("bounds: 8-bit field straddling the base top", base, [field("x", [(base - 4, base + 3)], T_uint(8))], [field("x", [(base - 8, top)], T_uint(8))])
+        add("bounds: far beyond the storage", base, [field("x", [(S + 8, S + 8)], T_bool())], [field("x", [(0, 0)], T_bool())])
+        if S < 128:
+            add("bounds: range beyond the storage", base, [field("x", [(S, S + 2)], T_uint(3))], [field("x", [(0, 2)], T_uint(3))])
+        if base >= 4:
+            w = 2
+            kfit = base // w
+            add("bounds: last array element one bit too high", base,
+                [field("x", [(0, w - 1)], T_uint(w), array={"k": kfit + 1, "stride": None})],
+                [field("x", [(0, w - 1)], T_uint(w), array={"k": kfit, "stride": None})])
+            add("bounds: strided array overruns the base", base,
+                [field("x", [(0, 0)], T_bool(), array={"k": 3, "stride": (base + 1) // 2})],
+                [field("x", [(0, 0)], T_bool(), array={"k": 2, "stride": base - 1})])
+            add("bounds: non-contiguous array overruns the base", base,
+                [field("x", [(0, 0), (base - 2, base - 2)], T_uint(2), array={"k": 3, "stride": 1})],
+                [field("x", [(0, 0), (base - 2, base - 2)], T_uint(2), array={"k": 2, "stride": 1})])
+    return out
+
+
+def enum_cases(tier):
+    """(clause, lines or enum model, valid twin enum model or None)"""
+    out = []
+
+    def lit_enum(name, bits, exh, variants, attrs=()):
+        args = ["u%d" % bits]
+        if exh is not None:
+            args.append("exhaustive = %s" % exh)
+        lines = ["/// must-fail enum", "#[bitenum(%s)]" % ", ".join(args), "#[derive(Debug, PartialEq, Eq)]"]
+        lines += list(attrs)
+        lines.append("pub enum %s {" % name)
+        for (vn, expr, cfg) in variants:
+            lines.append("    /// v")
+            if cfg:
+                lines.append("    %s" % cfg)
+            lines.append("    %s%s," % (vn, (" = %s" % expr) if expr is not None else ""))
+        lines.append("}")
+        return lines
+
+    def seq(n, start=0):
+        return [("V%d" % i, "%d" % (start + i), None) for i in range(n)]
+
+    n = 0
+    for N in range(1, 9 if tier == "thorough" else 6):
+        full = 1 << N
+        # 2^N - 1 variants claimed exhaustive
+        out.append(("exhaustive=true with 2^N-1 variants", lit_enum("E", N, "true", seq(full - 1)), mk_enum("x", "E", N, list(range(full - 1)))))
+        # all 2^N present but declared false / omitted
+        out.append(("exhaustive=false with all 2^N variants", lit_enum("E", N, "false", seq(full)), mk_enum("x", "E", N, list(range(full)))))
+        out.append(("exhaustive omitted with all 2^N variants", lit_enum("E", N, None, seq(full)), mk_enum("x", "E", N, list(range(full)))))
+        # 2^N + 1 variants (one discriminant necessarily out of range or duplicated)
+        out.append(("2^N+1 variants, exhaustive=true", lit_enum("E", N, "true", seq(full + 1)), None))
+        out.append(("2^N+1 variants, exhaustive=false", lit_enum("E", N, "false", seq(full + 1)), None))
+        # discriminant = 2^N and 2^N+1
+        out.append(("discriminant 2^N", lit_enum("E", N, "false", [("A", "0", None), ("B", "%d" % full, None)][: 2 if full > 2 else 1] if full > 2 else [("B", "%d" % full, None)]),
+                    mk_enum("x", "E", N, [0, full - 1] if full > 2 else [full - 1])))
+        out.append(("discriminant 2^N+1", lit_enum("E", N, "false", [("B", "%d" % (full + 1), None)]), mk_enum("x", "E", N, [full - 1])))
+    for N in (8, 9, 15, 16, 17, 31, 32, 33, 63):
+        full = 1 << N
+        out.append(("discriminant 2^N at storage boundary", lit_enum("E", N, "false", [("A", "0", None), ("B", "0x%x" % full, None)]), mk_enum("x", "E", N, [0, full - 1])))
+        out.append(("exhaustive=true on a sparse wide enum", lit_enum("E", N, "true", [("A", "0", None), ("B", "0x%x" % (full - 1), None)]), mk_enum("x", "E", N, [0, full - 1])))
+    # missing / non-literal discriminants
+    out.append(("missing discriminant", lit_enum("E", 2, "false", [("A", "0", None), ("B", None, None)]), mk_enum("x", "E", 2, [0, 1])))
+    out.append(("all discriminants missing", lit_enum("E", 2, "true", [("A", None, None), ("B", None, None), ("C", None, None), ("D", None, None)]), mk_enum("x", "E", 2, [0, 1, 2, 3])))
+    out.append(("expression discriminant", lit_enum("E", 2, "false", [("A", "0", None), ("B", "1 + 1", None)]), mk_enum("x", "E", 2, [0, 2])))
+    out.append(("cast discriminant", lit_enum("E", 2, "false", [("A", "0", None), ("B", "2 as isize", None)]), mk_enum("x", "E", 2, [0, 2])))
+    out.append(("constant discriminant", ["/// k", "pub const K2: isize = 2;"] + lit_enum("E", 2, "false", [("A", "0", None), ("B", "K2", None)]), mk_enum("x", "E", 2, [0, 2])))
+    out.append(("negative discriminant", lit_enum("E", 2, "false", [("A", "0", None), ("B", "-1", None)]), mk_enum("x", "E", 2, [0, 3])))
+    # cfg-gated variants without `conditional`
+    for exh in ("false", "true", None):
+        out.append(("cfg variant with exhaustive=%s" % exh, lit_enum("E", 2, exh, [("A", "0", None), ("B", "1", "#[cfg(all())]"), ("C", "2", None), ("D", "3", None)][: 4 if exh == "true" else 3]),
+                    mk_enum("x", "E", 2, [0, 1, 2, 3][: 4 if exh == "true" else 3], exh="conditional", cfgs={1: "on"})))
+    # storage sizes
+    out.append(("storage u0", lit_enum("E", 0, "false", [("A", "0", None)]), mk_enum("x", "E", 1, [0])))
+    out.append(("storage u65", lit_enum("E", 65, "false", [("A", "0", None)]), mk_enum("x", "E", 64, [0])))
+    out.append(("storage u128", lit_enum("E", 128, "false", [("A", "0", None)]), mk_enum("x", "E", 64, [0])))
+    # malformed exhaustive values
+    for bad in ("maybe", "1", "\"true\""):
+        out.append(("exhaustive = %s" % bad, lit_enum("E", 2, bad, [("A", "0", None)]), mk_enum("x", "E", 2, [0])))
+    return out
+
+
+API_PRELUDE = """
+    /// access matrix: f0 = r, f1 = w, f2 = rw, f3 = none
+    #[bitfield(u32, default = 0)]
+    pub struct Acc {
+        /// r
+        #[bits(0..=2, r)]
+        f0: u3,
+        /// w
+        #[bits(4..=6, w)]
+        f1: u3,
+        /// rw
+        #[bits(8..=10, rw)]
+        f2: u3,
+        /// none
+        #[bits(12..=14)]
+        f3: u3,
+        /// array r
+        #[bit(16, r)]
+        a0: [bool; 2],
+        /// array w
+        #[bit(18, w)]
+        a1: [bool; 2],
+        /// array rw
+        #[bit(20, rw)]
+        a2: [bool; 2],
+        /// array none
+        #[bit(22)]
+        a3: [bool; 2],
+        /// nc r
+        #[bits([24, 26], r)]
+        n0: u2,
+        /// nc w
+        #[bits([25, 27], w)]
+        n1: u2,
+        /// nc none
+        #[bits([28, 30])]
+        n3: u2,
+    }
+    /// enum for access matrix
+    #[bitenum(u2, exhaustive = true)]
+    pub enum AE {
+        /// a
+        A = 0,
+        /// b
+        B = 1,
+        /// c
+        C = 2,
+        /// d
+        D = 3,
+    }
+    /// enum-typed access matrix
+    #[bitfield(u8, default = 0)]
+    pub struct AccE {
+        /// r
+        #[bits(0..=1, r)]
+        e0: AE,
+        /// w
+        #[bits(2..=3, w)]
+        e1: AE,
+        /// rw
+        #[bits(4..=5, rw)]
+        e2: AE,
+        /// none
+        #[bits(6..=7)]
+        e3: AE,
+    }
+    /// complete builder, three fields
+    #[bitfield(u8)]
+    pub struct B3 {
+        /// a
+        #[bits(0..=1, rw)]
+        a: u2,
+        /// b
+        #[bits(2..=4, w)]
+        b: u3,
+        /// c
+        #[bit(5, rw)]
+        c: [bool; 3],
+    }
+    /// builder with default and a read-only field
+    #[bitfield(u16, default = 0x8001)]
+    pub struct BD {
+        /// a
+        #[bits(0..=3, rw)]
+        a: u4,
+        /// ro
+        #[bits(4..=7, r)]
+        ro: u4,
+        /// b
+        #[bits(8..=11, rw)]
+        b: u4,
+    }
+    /// arbitrary base, complete
+    #[bitfield(u12)]
+    pub struct B12 {
+        /// lo
+        #[bits(0..=5, rw)]
+        lo: u6,
+        /// hi
+        #[bits(6..=11, rw)]
+        hi: u6,
+    }
+    /// overlapping writable fields: no builder
+    #[bitfield(u8, default = 0)]
+    pub struct NoB1 {
+        /// a
+        #[bits(0..=4, rw)]
+        a: u5,
+        /// b
+        #[bits(4..=7, rw)]
+        b: u4,
+    }
+    /// incomplete without default: no builder
+    #[bitfield(u8)]
+    pub struct NoB2 {
+        /// a
+        #[bits(0..=4, rw)]
+        a: u5,
+    }
+    /// overlapping array elements: no builder
+    #[bitfield(u8, default = 0)]
+    pub struct NoB3 {
+        /// x
+        #[bits([0, 2], rw, stride = 2)]
+        x: [u2; 2],
+    }
+    /// self-overlapping range list: no builder
+    #[bitfield(u8, default = 0)]
+    pub struct NoB4 {
+        /// x
+        #[bits([0..=3, 2..=5], rw)]
+        x: u8,
+    }
+"""
+
+U3 = "arbitrary_int::u3::new(1)"
+U2 = "arbitrary_int::u2::new(1)"
+
+
+def api_cases():
+    """(prop, clause, failing body, compiling twin body); bodies are fn bodies returning ()"""
+    c = []
+    # C17: absent methods
+    c.append(("C17", "r field has no with_", "let _ = Acc::DEFAULT.with_f0(%s);" % U3, "let _ = Acc::DEFAULT.with_f2(%s);" % U3))
+    c.append(("C17", "r field has no set_", "let mut s = Acc::DEFAULT; s.set_f0(%s);" % U3, "let mut s = Acc::DEFAULT; s.set_f2(%s);" % U3))
+    c.append(("C17", "w field has no getter", "let _ = Acc::DEFAULT.f1();", "let _ = Acc::DEFAULT.f2();"))
+    c.append(("C17", "unspecified field has no getter", "let _ = Acc::DEFAULT.f3();", "let _ = Acc::DEFAULT.f0();"))
+    c.append(("C17", "unspecified field has no with_", "let _ = Acc::DEFAULT.with_f3(%s);" % U3, "let _ = Acc::DEFAULT.with_f1(%s);" % U3))
+    c.append(("C17", "unspecified field has no set_", "let mut s = Acc::DEFAULT; s.set_f3(%s);" % U3, "let mut s = Acc::DEFAULT; s.set_f1(%s);" % U3))
+    c.append(("C17", "r array has no with_", "let _ = Acc::DEFAULT.with_a0(0, true);", "let _ = Acc::DEFAULT.with_a2(0, true);"))
+    c.append(("C17", "r array has no set_", "let mut s = Acc::DEFAULT; s.set_a0(0, true);", "let mut s = Acc::DEFAULT; s.set_a1(0, true);"))
+    c.append(("C17", "w array has no getter", "let _ = Acc::DEFAULT.a1(0);", "let _ = Acc::DEFAULT.a0(0);"))
+    c.append(("C17", "unspecified array has no getter", "let _ = Acc::DEFAULT.a3(0);", "let _ = Acc::DEFAULT.a2(0);"))
+    c.append(("C17", "unspecified array has no with_", "let _ = Acc::DEFAULT.with_a3(0, true);", "let _ = Acc::DEFAULT.with_a1(0, true);"))
+    c.append(("C17", "r non-contiguous field has no with_", "let _ = Acc::DEFAULT.with_n0(%s);" % U2, "let _ = Acc::DEFAULT.with_n1(%s);" % U2))
+    c.append(("C17", "w non-contiguous field has no getter", "let _ = Acc::DEFAULT.n1();", "let _ = Acc::DEFAULT.n0();"))
+    c.append(("C17", "unspecified non-contiguous field has no getter", "let _ = Acc::DEFAULT.n3();", "let _ = Acc::DEFAULT.n0();"))
+    c.append(("C17", "unspecified non-contiguous field has no set_", "let mut s = Acc::DEFAULT; s.set_n3(%s);" % U2, "let mut s = Acc::DEFAULT; s.set_n1(%s);" % U2))
+    c.append(("C17", "r enum field has no with_", "let _ = AccE::DEFAULT.with_e0(AE::A);", "let _ = AccE::DEFAULT.with_e2(AE::A);"))
+    c.append(("C17", "w enum field has no getter", "let _ = AccE::DEFAULT.e1();", "let _ = AccE::DEFAULT.e0();"))
+    c.append(("C17", "unspecified enum field has no getter", "let _ = AccE::DEFAULT.e3();", "let _ = AccE::DEFAULT.e2();"))
+    c.append(("C17", "unspecified enum field has no set_", "let mut s = AccE::DEFAULT; s.set_e3(AE::A);", "let mut s = AccE::DEFAULT; s.set_e1(AE::A);"))
+    c.append(("C17", "r field gets no builder step", "let _ = BD::builder().with_ro(arbitrary_int::u4::new(1));", "let _ = BD::builder().with_a(arbitrary_int::u4::new(1));"))
+    # C14: incomplete chains
+    full = "B3::builder().with_a(%s).with_b(%s).with_c([true, false, true]).build()" % (U2, U3)
+    c.append(("C14", "build() right after builder()", "let _ = B3::builder().build();", "let _ = %s;" % full))
+    c.append(("C14", "last field missing", "let _ = B3::builder().with_a(%s).with_b(%s).build();" % (U2, U3), "let _ = %s;" % full))
+    c.append(("C14", "middle field skipped", "let _ = B3::builder().with_a(%s).with_c([true, false, true]).build();" % U2, "let _ = %s;" % full))
+    c.append(("C14", "first field skipped", "let _ = B3::builder().with_b(%s).with_c([true, false, true]).build();" % U3, "let _ = %s;" % full))
+    c.append(("C14", "out of declaration order", "let _ = B3::builder().with_b(%s).with_a(%s).with_c([true, false, true]).build();" % (U3, U2), "let _ = %s;" % full))
+    c.append(("C14", "field supplied twice", "let _ = B3::builder().with_a(%s).with_a(%s).with_b(%s).with_c([true, false, true]).build();" % (U2, U2, U3), "let _ = %s;" % full))
+    fullbd = "BD::builder().with_a(arbitrary_int::u4::new(1)).with_b(arbitrary_int::u4::new(2)).build()"
+    c.append(("C14", "default does not excuse a missing field", "let _ = BD::builder().with_a(arbitrary_int::u4::new(1)).build();", "let _ = %s;" % fullbd))
+    c.append(("C14", "default does not excuse an empty chain", "let _ = BD::builder().build();", "let _ = %s;" % fullbd))
+    full12 = "B12::builder().with_lo(arbitrary_int::u6::new(1)).with_hi(arbitrary_int::u6::new(2)).build()"
+    c.append(("C14", "arbitrary base: missing high field", "let _ = B12::builder().with_lo(arbitrary_int::u6::new(1)).build();", "let _ = %s;" % full12))
+    c.append(("C14", "no builder for overlapping fields", "let _ = NoB1::builder();", "let _ = NoB1::DEFAULT;"))
+    c.append(("C14", "no builder for incomplete cover without default", "let _ = NoB2::builder();", "let _ = NoB2::ZERO;"))
+    c.append(("C14", "no builder for overlapping array elements", "let _ = NoB3::builder();", "let _ = NoB3::DEFAULT;"))
+    c.append(("C14", "no builder for a self-overlapping range list", "let _ = NoB4::builder();", "let _ = NoB4::DEFAULT;"))
+    return c
 
 
 def build_negative(tier, seed):
-    return []
+    crates = []
+    # ---- declarations (C09)
+    neg = Crate("neg_decl_0", kind="neg")
+    twin = Crate("pos_twin_0", kind="pos")
+    for (clause, n, base, bad, good) in decl_pairs(tier):
+        mod = "d%d" % n
+        neg.add(neg_struct(mod, "W", base, bad, "C09", clause))
+        s = struct(mod, "W", base, good, family="TWIN")
+        s["twin_of"] = clause
+        twin.add(s)
+    crates += [neg, twin]
+    # ---- enum-typed width mismatches are rejected by the type checker (separate crate: later compiler phase)
+    negt = Crate("neg_declty_0", kind="neg")
+    n = 0
+    for w_enum, w_field in ((2, 3), (2, 1), (3, 2), (1, 2), (8, 7), (8, 9), (16, 8), (8, 16), (9, 8), (12, 16)):
+        n += 1
+        mod = "t%d" % n
+        full = w_enum <= 3
+        e = mk_enum(mod, "E", w_enum, list(range(1 << w_enum)) if full else [0, 1])
+        lines = render_enum(e)
+        f = field("x", [(0, w_field - 1)], T_enum("E", w_field, full))
+        s = struct(mod, "W", 32, [f], family="NEG")
+        item = raw_item(mod, "W", lines + render_struct(s), "C09", "width: u%d enum on %d bits" % (w_enum, w_field))
+        negt.add(item)
+        # twin
+        e2 = mk_enum(mod, "E", w_enum, list(range(1 << w_enum)) if full else [0, 1], family="TWIN")
+        twin.add(e2)
+        s2 = struct(mod, "W", 32, [field("x", [(0, w_enum - 1)], T_enum("E", w_enum, full))], family="TWIN")
+        twin.add(s2)
+    crates.append(negt)
+    # ---- enums (C10)
+    nege = Crate("neg_enum_0", kind="neg")
+    for i, (clause, lines, good) in enumerate(enum_cases(tier)):
+        mod = "e%d" % i
+        nege.add(raw_item(mod, "E", lines, "C10", clause))
+        if good is not None:
+            good = dict(good)
+            good["mod"] = mod
+            good["path"] = "%s::%s" % (mod, good["name"])
+            good["family"] = "TWIN"
+            twin.add(good)
+    crates.append(nege)
+    # ---- API absence (C14, C17) with compiling twins
+    nega = Crate("neg_api_0", kind="neg")
+    posa = Crate("pos_apitwin_0", kind="pos")
+    pre = [l[4:] if l.startswith("    ") else l for l in API_PRELUDE.strip("\n").split("\n")]
+    pimp = ["u2", "u3", "u4", "u5", "u6", "u12"]
+    nega.add({"kind": "raw", "mod": "api", "name": "_prelude", "path": "api::_prelude", "lines": pre, "imports": pimp})
+    posa.add({"kind": "raw", "mod": "api", "name": "_prelude", "path": "api::_prelude", "lines": pre, "imports": pimp})
+    for i, (prop, clause, bad, good) in enumerate(api_cases()):
+        nega.add(raw_item("api", "n%d" % i, ["/// must not compile: %s" % clause, "pub fn n%d() {" % i, "    " + bad, "}"], prop, clause, expect_code="E0599"))
+        posa.add({"kind": "raw", "mod": "api", "name": "p%d" % i, "path": "api::p%d" % i, "prop": prop, "clause": clause,
+                  "lines": ["/// twin of n%d: %s" % (i, clause), "pub fn p%d() {" % i, "    " + good, "}"]})
+    crates += [nega, posa]
+    # ---- regime fixtures (C18 vacuity guards): these MUST be rejected by the regime itself
+    negr = Crate("neg_regime_0", kind="neg")
+    negr.header = ["#![no_std]", "#![deny(missing_docs)]", "//! regime fixtures", ""]
+    negr.add(raw_item("r1", "undocumented", ["pub struct Undocumented;"], "C18", "fixture: an undocumented pub item is an error under deny(missing_docs)"))
+    crates.append(negr)
+    negr2 = Crate("neg_regime_1", kind="neg")
+    negr2.header = ["#![no_std]", "#![deny(missing_docs)]", "//! regime fixtures", ""]
+    negr2.add(raw_item("r2", "uses_std", ["/// uses std", "pub fn f() -> ::std::string::String { ::std::string::String::new() }"], "C18", "fixture: a ::std path is an error under #![no_std]"))
+    crates.append(negr2)
+    return crates
